@@ -49,7 +49,7 @@ theorem executing_hooks_stable (hooks : List Hook) (ev : String) (k : Hook) :
 
 /-- The hook objects created are a prefix of that sorted list: in order, none skipped. -/
 theorem created_in_order (fails : String → Bool) (ex : List String) (hooks : List Hook) (ev : String) :
-    (execHook fails ex hooks ev).evs.filterMap createOf <+: (sortHooks (selectHooks hooks ev)).map (·.name) :=
+    (execHook fails ex hooks ev).evs.filterMap createOf <+: (sortHooks (selectHooks hooks ev)).map (·.key) :=
   run_creates_prefix fails ex [] _
 
 /-- One at a time: each create is followed at once by the watch of that same hook, and nothing
@@ -96,7 +96,7 @@ theorem first_failure_trace (fails : String → Bool) (ex : List String) (hooks 
 /-- Success of the event means every hook was created and none failed. -/
 theorem ok_means_all_ran (fails : String → Bool) (ex : List String) (hooks : List Hook) (ev : String)
     (hok : (execHook fails ex hooks ev).ok = true) :
-    (execHook fails ex hooks ev).evs.filterMap createOf = (sortHooks (selectHooks hooks ev)).map (·.name) ∧
+    (execHook fails ex hooks ev).evs.filterMap createOf = (sortHooks (selectHooks hooks ev)).map (·.key) ∧
     ∀ h ∈ hooks, ev ∈ h.events → fails h.name = false := by
   obtain ⟨h1, h2⟩ := run_ok fails ex [] _ hok
   refine ⟨h1, fun h hh he => h2 h ((sortHooks_perm _).symm.subset ((selected_iff hooks ev h).mpr ⟨hh, he⟩))⟩
@@ -162,8 +162,8 @@ theorem disabled_hooks_none_created (fails : String → Bool) (resFails : Bool) 
 
 /-! ### where the full statement fails -/
 
-def hkA : Hook := { name := "a", weight := 0, events := ["pre-upgrade"], policies := [.before, .succeeded] }
-def hkB : Hook := { name := "b", weight := 1, events := ["pre-upgrade"], policies := [.failed] }
+def hkA : Hook := { key := "a", name := "a", weight := 0, events := ["pre-upgrade"], policies := [.before, .succeeded] }
+def hkB : Hook := { key := "b", name := "b", weight := 1, events := ["pre-upgrade"], policies := [.failed] }
 
 /-- `b` is left from an earlier run and does not carry before-hook-creation: its creation is
 refused, and `a` -- which succeeded and carries hook-succeeded -- is not deleted. -/
@@ -175,8 +175,8 @@ theorem counterexample_succeeded_not_deleted_on_create_failure :
 
 /-- non-vacuity: three hooks, equal and negative weights, the middle one fails -/
 example :
-    let hs : List Hook := [{ name := "z", weight := -1, events := ["e"], policies := [.before, .succeeded] },
-      { name := "b", weight := 0, events := ["e"], policies := [.before, .failed] }, { name := "a", weight := 0, events := ["e", "f"] }]
+    let hs : List Hook := [{ key := "z", name := "z", weight := -1, events := ["e"], policies := [.before, .succeeded] },
+      { key := "b", name := "b", weight := 0, events := ["e"], policies := [.before, .failed] }, { key := "a", name := "a", weight := 0, events := ["e", "f"] }]
     (execHook (fun n => n = "b") [] hs "e").evs =
       [.del "z", .create "z", .watch "z", .del "a", .create "a", .watch "a", .del "b", .create "b", .watch "b", .del "b", .del "z"] := by
   decide
